@@ -148,13 +148,43 @@ func Now() int64 {
 
 // After returns a channel that receives v once the virtual clock has advanced by d.
 func After[T any](d int64, v T) *Chan[T] {
+	return NewTimer(d, 0, func(int64) T { return v }).C
+}
+
+// Timer is a one-shot (period 0) or periodic timer on the virtual clock.
+type Timer[T any] struct {
+	C  *Chan[T]
+	tm *timer
+}
+
+// NewTimer arms a timer that delivers mk(fire time) on C after d, then every period (if > 0).
+func NewTimer[T any](d, period int64, mk func(at int64) T) *Timer[T] {
 	x := X
 	c := MakeChan[T](1)
 	if d < 0 {
 		d = 0
 	}
-	x.timers = append(x.timers, &timer{at: x.Now + d, ch: &c.core, val: v})
-	return c
+	tm := &timer{at: x.Now + d, ch: &c.core, mk: func(at int64) any { return mk(at) }, period: period}
+	x.timers = append(x.timers, tm)
+	return &Timer[T]{C: c, tm: tm}
+}
+
+// Stop disarms the timer; it reports whether the timer was armed.
+func (t *Timer[T]) Stop() bool {
+	was := !t.tm.fired
+	t.tm.fired = true
+	return was
+}
+
+// Reset re-arms the timer to fire after d; it reports whether the timer was armed.
+func (t *Timer[T]) Reset(d int64) bool {
+	was := !t.tm.fired
+	if d < 0 {
+		d = 0
+	}
+	t.tm.at = X.Now + d
+	t.tm.fired = false
+	return was
 }
 
 // WaitGroup
